@@ -222,7 +222,8 @@ func (c *Ctx) atReturn(st *State, ret Value, n int) {
 func (c *Ctx) checkFrame(st *State, fr *Frame) {
 	sp := c.Spec
 	if len(sp.Modifies) == 0 {
-		return
+		// no frame clause: callers havoc nothing, so the function is checked against `modifies nothing`
+		sp.Modifies = []string{"nothing"}
 	}
 	base := fnDisplay(c.Fn)
 	env := c.specEnvFor(st, fr)
@@ -266,7 +267,7 @@ func (c *Ctx) checkFrame(st *State, fr *Frame) {
 		if !ok {
 			continue
 		}
-		if cur == x.v {
+		if identicalValue(cur, x.v) {
 			continue
 		}
 		if _, isMap := cur.(*MapObj); isMap {
@@ -276,7 +277,7 @@ func (c *Ctx) checkFrame(st *State, fr *Frame) {
 					covered = true
 				}
 			}
-			if !covered && cur != x.v {
+			if !covered && !identicalValue(cur, x.v) {
 				claims = append(claims, False())
 			}
 			continue
@@ -338,7 +339,7 @@ func (c *Ctx) frameDiff(st *State, o *Object, path []int, old, cur Value, locs [
 			return // covered
 		}
 	}
-	if old == cur {
+	if identicalValue(old, cur) {
 		return
 	}
 	switch x := cur.(type) {
@@ -784,4 +785,14 @@ func (e *Engine) globalWritten(g *ssa.Global) bool {
 		}
 	}
 	return e.gwritten[g]
+}
+
+// identicalValue: cheap identity test on engine values (uncomparable dynamic types are simply "not identical").
+func identicalValue(a, b Value) (same bool) {
+	defer func() {
+		if recover() != nil {
+			same = false
+		}
+	}()
+	return a == b
 }
